@@ -49,6 +49,11 @@ def main():
     if only:
         muts = [m for m in muts if os.path.basename(m)[:3] in only]
         refs = [m for m in refs if os.path.basename(m)[:3] in only]
+    for i, a in enumerate(sys.argv):
+        if a == "--rounds":           # e.g. --rounds 6,7  : only the changes with these indices (m6, m7, r6, r7)
+            idx = sys.argv[i + 1].split(",")
+            muts = [m for m in muts if os.path.basename(m).split("-")[1][1:] in idx]
+            refs = [m for m in refs if os.path.basename(m).split("-")[1][1:] in idx]
     props = PROPS
     results = {}
     with cf.ThreadPoolExecutor(16) as ex:
